@@ -770,6 +770,9 @@ func gracePeriodInfallible(w *World) (bool, string) {
 		if c.Is("util/keeper", "", "ValAddressFromBech32") || c.Is("util/slice", "", "MapErr") {
 			continue
 		}
+		if isNewHelper(c.Static) {
+			continue // a helper extracted from this function: its own calls are in the list
+		}
 		return false, "UpdateGracePeriod now contains another fallible call: " + c.String() + " at " + w.Pos(s.Instr.Pos())
 	}
 	return true, "fallible calls inside UpdateGracePeriod are limited to parsing staking operator addresses"
